@@ -13,7 +13,7 @@ Proof. split; vm_compute; reflexivity. Qed.
 
 (** * Flattened rows of [model_shapes] (kernel computation) *)
 Ltac comp := vm_compute; reflexivity.
-Definition fl := flat_fn model_shapes env0.
+Notation fl := (flat_fn model_shapes env0).
 Lemma fl_clone : fl "Span::clone" = Some [(POwn KCloneSpan, false)]. Proof. comp. Qed.
 Lemma fl_dropglue : fl "Span::dropglue" = Some [(POwn KTryClose, false)]. Proof. comp. Qed.
 Lemma fl_es_dropglue : fl "EnteredSpan::dropglue" = Some [(POwn KExit, false); (POwn KTryClose, true)]. Proof. comp. Qed.
@@ -67,3 +67,120 @@ Qed.
 Lemma futures_captures :
   lookup_row model_shapes "futures::WithCollector::with_current_collector" = lookup_row model_shapes "WithCollector::with_current_collector".
 Proof. comp. Qed.
+
+(** * The model's compiler emits what the table says *)
+Lemma ents_on_one : forall o n e, ents_on o n = [e] -> e_holder e = n.
+Proof.
+  unfold ents_on; intros o n e H.
+  assert (Hin : In e (filter (fun e => (e_holder e =? n)%N) (o_ents o))) by (rewrite H; simpl; auto).
+  apply filter_In in Hin. apply N.eqb_eq; tauto.
+Qed.
+
+
+Local Opaque flat_fn fut_shape captures_default.
+Ltac cases H := repeat match type of H with
+   | context [if ?c then _ else _] => destruct c eqn:?; try discriminate H
+   | context [match ?x with _ => _ end] => destruct x eqn:?; try discriminate H end.
+Ltac rw := rewrite ?fl_clone, ?fl_dropglue, ?fl_es_dropglue, ?fl_e_dropglue, ?fl_enter, ?fl_entered, ?fl_exit, ?fl_in_scope,
+                   ?fl_into_inner, ?fl_instrument, ?fl_with_collector, ?fl_span_mut, ?captures,
+                   ?shape_poll, ?shape_dropglue, ?shape_clone.
+Ltac fin H := inversion H; subst; clear H; rw; reflexivity.
+
+Lemma record_chain : forall r t ks,
+  oconcat (map (fun k : bool => opms (mkPctx (mkEnt EOwned r t) r t 0%N [])
+                                  (flat_fn model_shapes (mkFenv true k) "Span::record")) ks)
+  = Some (map (fun _ => MRecord r t) (filter (fun b => b) ks)).
+Proof.
+  induction ks as [|k ks IH]; [reflexivity|]. cbn [map oconcat]. rewrite IH, fl_record. destruct k; reflexivity.
+Qed.
+
+Theorem compile_from_shapes : forall o t a ms, compile o t a = Some ms -> emit_tbl model_shapes o t a = Some ms.
+Proof.
+  intros o t a ms H. destruct a; cbn [compile] in H; unfold emit_tbl; cbv beta iota zeta.
+  - (* New *) abstract (cases H; fin H).
+  - (* Clone *) abstract (cases H; fin H).
+  - (* Current *) abstract (cases H; fin H).
+  - (* OrCurrent *) abstract (cases H; fin H).
+  - (* Drop *) abstract (cases H; fin H).
+  - (* Enter *) abstract (cases H; fin H).
+  - (* DropGuard *) abstract (cases H; fin H).
+  - (* Entered *) abstract (cases H; fin H).
+  - (* ExitOwned *) abstract (cases H; fin H).
+  - (* ScopeBegin *) abstract (cases H; fin H).
+  - (* ScopeEnd *) abstract (cases H; inversion H; subst; clear H; rewrite fl_in_scope; destruct unwind; reflexivity).
+  - (* Record *) abstract (cases H; inversion H; subst; clear H; apply record_chain).
+  - (* FollowsFrom *) abstract (cases H; inversion H; subst; clear H; rewrite fl_follows; reflexivity).
+  - (* Query *) abstract (cases H; inversion H; subst; clear H; rewrite fl_query; reflexivity).
+  - (* Instrument *) abstract (cases H; fin H).
+  - (* WithCollector *) abstract (destruct c; cases H; fin H).
+  - (* InnerAccess *) abstract (cases H; inversion H; subst; clear H; rewrite fl_inner; reflexivity).
+  - (* SpanMutSwap *) abstract (cases H; fin H).
+  - (* CloneFut *) abstract (destruct (kind_of o f) as [[| |b]|]; try discriminate H; cases H; inversion H; subst; clear H;
+      cbn [obind]; rewrite shape_clone; reflexivity).
+  - (* PollBegin *) abstract (cases H; fin H).
+  - (* PollEnd *) abstract (destruct (top_frame o t) as [e|]; [|discriminate H]; cbn [obind];
+      cases H; inversion H; subst; clear H; cbn [obind]; rewrite shape_poll; destruct res; reflexivity).
+  - (* IntoInner *) abstract (cases H; fin H).
+  - (* SetDefault *) abstract (cases H; fin H).
+  - (* CloseScope *) abstract (cases H; fin H).
+Qed.
+
+(** * Meaning of the own-collector micro-actions *)
+Theorem md_own : forall d,
+  (forall e, md (MEnterE e) d = own_sem KEnter (val_of d (e_holder e)) (e_tid e) None d) /\
+  (forall e, md (MExitE e) d = own_sem KExit (val_of d (e_holder e)) (e_tid e) None d) /\
+  (forall n t, md (MRelease n t) d = own_sem KTryClose (val_of d n) t None d) /\
+  (forall r t, md (MRecord r t) d = own_sem KRecord (val_of d r) t None d) /\
+  (forall r r' t, md (MFollows r r' t) d = own_sem KFollows (val_of d r) t (id_of_val (val_of d r')) d) /\
+  (forall r n t, md (MCloneTo r n t) d = set_val (own_sem KCloneSpan (val_of d r) t None d) n (val_of d r)).
+Proof.
+  intros d. repeat apply conj.
+  - intros e. cbn [md own_sem]. destruct (val_of d (e_holder e)); reflexivity.
+  - intros e. cbn [md own_sem]. destruct (val_of d (e_holder e)); reflexivity.
+  - intros n t. cbn [md own_sem]. destruct (val_of d n); reflexivity.
+  - intros r t. cbn [md own_sem]. destruct (val_of d r); reflexivity.
+  - intros r r' t. cbn [md own_sem]. destruct (val_of d r); try reflexivity.
+  - intros r n t. cbn [md own_sem]. destruct (val_of d r); reflexivity.
+Qed.
+
+(** * Meaning of the constructor micro-actions: the rows of Span::new* / child_of / span! / current / or_current *)
+Theorem md_new_from_shapes : forall n t h p d,
+  md (MNewSpan n t h p) d = ctor_run model_shapes (new_entry h p) d n t (new_parg d p) (new_enabled d t h) SNone.
+Proof.
+  intros n t h p d. unfold ctor_run, new_entry, new_parg, new_enabled. cbn [md].
+  destruct (cur_default d t) as [|pc]; destruct h as [[|]|]; destruct p; (vm_compute; reflexivity).
+Qed.
+
+Theorem md_current_from_shapes : forall n t d,
+  md (MCurrentTo n t) d = ctor_run model_shapes row_current d n t None true SNone.
+Proof.
+  intros n t d. unfold ctor_run. cbn [md]. unfold do_current.
+  destruct (cur_default d t) as [|pc]; [vm_compute; reflexivity|].
+  cbv -[stack_of d_log d_vals d_defaults d_next d_made d_dropped d_disp]. destruct (stack_of (d_log d) (N.pos pc) t); reflexivity.
+Qed.
+
+Theorem md_or_current_from_shapes : forall n t d,
+  md (MOrCurrent n t) d = ctor_run model_shapes row_or_current d n t None true (val_of d n).
+Proof.
+  intros n t d. unfold ctor_run. cbn [md]. unfold do_current.
+  destruct (val_of d n) eqn:Ev; [| vm_compute; reflexivity ..].
+  destruct (cur_default d t) as [|pc]; [vm_compute; reflexivity|].
+  cbv -[stack_of d_log d_vals d_defaults d_next d_made d_dropped d_disp]. destruct (stack_of (d_log d) (N.pos pc) t); reflexivity.
+Qed.
+
+(** * The interpreter tells the shapes apart: the rows the two seeded mutants of /verif/seeded/C03-{A,B} produce *)
+Definition set_row (tbl : table) (m : string) (r : list sev) : table :=
+  map (fun kr => if String.eqb (fst kr) m then (m, r) else kr) tbl.
+Definition shapes_A : table :=     (* in_scope without the RAII guard *)
+  set_row model_shapes "Span::in_scope" [SInvoke "Span::do_enter"; SBody; SInvoke "Span::do_exit"].
+Definition shapes_B : table :=     (* into_inner forgets the span *)
+  set_row model_shapes "Instrumented::into_inner" [SForgetSelf].
+Example shapes_sensitive :
+  let o := mkOwn [(0%N, KHandle)] [mkEnt EScope 0%N 0%N] in
+  let e := mkEnt EScope 0%N 0%N in
+  emit_tbl model_shapes o 0%N (ScopeEnd true) = Some [MExitE e] /\
+  emit_tbl shapes_A o 0%N (ScopeEnd false) = Some [MExitE e] /\
+  emit_tbl shapes_A o 0%N (ScopeEnd true) = Some [] /\
+  emit_tbl model_shapes (mkOwn [(0%N, KFut)] []) 0%N (IntoInner 0%N) = Some [MRelease 0%N 0%N; MMark 0%N (MInnerDrop 0%N)] /\
+  emit_tbl shapes_B (mkOwn [(0%N, KFut)] []) 0%N (IntoInner 0%N) = Some [MMark 0%N (MInnerDrop 0%N)].
+Proof. vm_compute. repeat split; reflexivity. Qed.
